@@ -139,6 +139,7 @@ def gen():
         w("pub assume_specification [<%s as Default>::default]() -> (r: %s) ensures %s_empty(r), r == empty_%s();" % (name, name, name, name))
         oks = ["%s(p.%s)" % (OKFN[PROPS[q][1]], PROPS[q][2]) for q in props if PROPS[q][1] in OKFN]
         oks.append("ups_ok(p.user_properties@)")
+        w("#[verifier::opaque]")
         w("pub open spec fn %s_fields_ok(p: %s) -> bool { %s }" % (name, name, " && ".join(oks)))
         w("pub open spec fn %s_ok(p: %s) -> bool { %s_fields_ok(p) && enc_%s_body(p).len() < 268435456 }" % (name, name, name, name))
     w("@endspec")
@@ -204,19 +205,26 @@ def gen():
             w("    ensures p5_%s_loop(s, plen, len, acc, used, pt) == (match %s { PR::Inc => PR::<%s, ErrorV5>::Inc, PR::Err(e) => PR::<%s, ErrorV5>::Err(e)," % (name, stepc, name, name))
             w("        PR::Ok(v, n) => p5_%s_loop(s.skip(1 + n as int), plen, %s, %s, used + 1 + n, pt) })" % (name, lenexpr, upd))
             w("{ reveal(p5_%s_loop); }" % name)
+        allfields = [PROPS[qq][2] for qq in props]
         for q in props:
             pid, ty, f = PROPS[q]
-            w("pub proof fn lemma_%s_len_%s(acc: %s, v: %s)" % (name, q, name, {"bool": "bool", "qos": "QoS", "u16": "u16", "u32": "u32", "str": "Arc<String>", "topic": "TopicName", "bin": "Bytes", "varint": "VarByteInt"}[ty]))
-            w("    requires acc.%s is None" % f)
-            w("    ensures enc_%s_body(%s { %s: Some(v), ..acc }).len() == enc_%s_body(acc).len() + prop_%s(0x%02Xu8, Some(v)).len()" % (name, name, f, name, ty, pid))
-            w("{ reveal(enc_%s_body); %s }" % (name, " ".join("reveal(enc_%s_upto_%d);" % (name, kk) for kk in range(1, len(props) + 1))))
-        w("pub proof fn lemma_%s_len_UserProperty(acc: %s, v: UserProperty)" % (name, name))
-        w("    ensures enc_%s_body(%s { user_properties: mk_vec(acc.user_properties@.push(v)), ..acc }).len() == enc_%s_body(acc).len() + enc_up(v).len()," % (name, name, name))
-        w("            ups_ok(acc.user_properties@) && sbytes(v.name@).len() <= 65535 && sbytes(v.value@).len() <= 65535 ==> ups_ok(acc.user_properties@.push(v))")
-        w("{ reveal(enc_%s_body); %s broadcast use group_ext; assert(acc.user_properties@.push(v).drop_last() =~= acc.user_properties@); }" % (name, " ".join("reveal(enc_%s_upto_%d);" % (name, kk) for kk in range(1, len(props) + 1))))
+            okc = {"str": "sbytes(nw.%s->Some_0@).len() <= 65535", "topic": "sbytes(nw.%s->Some_0.text()).len() <= 65535", "bin": "nw.%s->Some_0@.len() <= 65535", "varint": "nw.%s->Some_0.0 < 268435456"}.get(ty, "true")
+            okc = okc % f if "%s" in okc else okc
+            same = " && ".join(["nw.%s == old.%s" % (g, g) for g in allfields if g != f] + ["nw.user_properties == old.user_properties"])
+            w("pub proof fn lemma_%s_len_%s(old: %s, nw: %s)" % (name, q, name, name))
+            w("    requires old.%s is None, nw.%s is Some, %s" % (f, f, same))
+            w("    ensures enc_%s_body(nw).len() == enc_%s_body(old).len() + prop_%s(0x%02Xu8, nw.%s).len()," % (name, name, ty, pid, f))
+            w("            %s_fields_ok(old) && %s ==> %s_fields_ok(nw)" % (name, okc, name))
+            w("{ reveal(%s_fields_ok); reveal(enc_%s_body); %s }" % (name, name, " ".join("reveal(enc_%s_upto_%d);" % (name, kk) for kk in range(1, len(props) + 1))))
+        same = " && ".join(["nw.%s == old.%s" % (g, g) for g in allfields] + ["nw.user_properties@ == old.user_properties@.push(v)"])
+        w("pub proof fn lemma_%s_len_UserProperty(old: %s, nw: %s, v: UserProperty)" % (name, name, name))
+        w("    requires %s" % same)
+        w("    ensures enc_%s_body(nw).len() == enc_%s_body(old).len() + enc_up(v).len()," % (name, name))
+        w("            %s_fields_ok(old) && sbytes(v.name@).len() <= 65535 && sbytes(v.value@).len() <= 65535 ==> %s_fields_ok(nw)" % (name, name))
+        w("{ reveal(%s_fields_ok); reveal(enc_%s_body); %s assert(nw.user_properties@.drop_last() =~= old.user_properties@); }" % (name, name, " ".join("reveal(enc_%s_upto_%d);" % (name, kk) for kk in range(1, len(props) + 1))))
         w("pub proof fn lemma_%s_len_empty()" % name)
         w("    ensures enc_%s_body(empty_%s()).len() == 0, %s_fields_ok(empty_%s())" % (name, name, name, name))
-        w("{ reveal(enc_%s_body); %s broadcast use group_ext; }" % (name, " ".join("reveal(enc_%s_upto_%d);" % (name, kk) for kk in range(1, len(props) + 1))))
+        w("{ reveal(%s_fields_ok); reveal(enc_%s_body); %s broadcast use group_ext; }" % (name, name, " ".join("reveal(enc_%s_upto_%d);" % (name, kk) for kk in range(1, len(props) + 1))))
         w("pub open spec fn p5_%s(s: Seq<u8>, pt: PacketType) -> PR<%s, ErrorV5> {" % (name, name))
         w("    match p_varint(s) { PR::Inc => PR::Inc, PR::Err(e) => PR::Err(ErrorV5::Common(e)),")
         w("        PR::Ok(plen, n0) => p5_%s_loop(s.skip(n0 as int), plen as nat, 0, empty_%s(), n0, pt) }" % (name, name))
@@ -227,7 +235,7 @@ def gen():
         # ---------------- decode_async
         w("@fn %s::{%s}::decode_async" % (mod, name))
         w("@props C01 C03 C04 C06 C07 C11 C12 C14 C20")
-        w("@attr #[verifier::rlimit(300)]")
+        w("@attr #[verifier::rlimit(1200)]")
         w("@attr #[verifier::spinoff_prover]")
         w("@ensures")
         pt = "PacketType::Connect" if is_will else "packet_type"
@@ -271,9 +279,9 @@ def gen():
             extra = " lemma_vlen_enc(properties.%s->Some_0.0 as nat);" % f if ty == "varint" else ""
             occ = 2 if ty == "qos" else 1   # the inline arms (MaximumQoS, SubscriptionIdentifier) test the field once more for the duplicate check
             w("@before %d `%s`" % (occ, pat))
-            w("  proof { lemma_%s_len_%s(p0, properties.%s->Some_0);%s }" % (name, q, f, extra))
+            w("  proof { lemma_%s_len_%s(p0, properties);%s }" % (name, q, extra))
         w("@before `let last = properties . user_properties . last ( )`")
-        w("  proof { lemma_%s_len_UserProperty(p0, user_property); }" % name)
+        w("  proof { lemma_%s_len_UserProperty(p0, properties, user_property); }" % name)
         w("@before `if property_len as usize != len {`")
         w("  proof { lemma_%s_head(reader.stream(), property_len as nat, len as nat, properties, used, %s); }" % (name, pt))
         w("@end")
@@ -298,14 +306,14 @@ def gen():
         w("@entry")
         w("  let ghost w0 = writer.written();")
         w("  let ghost ups = self.user_properties@;")
-        w("  proof { lemma_upto_mono_%s(*self); lemma_ups_len(ups); }" % name)
+        w("  proof { reveal(%s_fields_ok); lemma_upto_mono_%s(*self); lemma_ups_len(ups); }" % (name, name))
         w("@loop 1")
         w("  @invariant")
         w("    #frame: idx_1 <= ups.len() && ups == self.user_properties@ && %s_ok(*self) && w0 == old(writer).written() && writer.written() == w0" % name)
         w("    #acc: sum_acc == ups_sum4(ups.take(idx_1 as int))")
         w("  @decreases ups.len() - idx_1")
         w("  @top")
-        w("    proof { lemma_upto_mono_%s(*self); lemma_ups_take(ups, idx_1 as int); lemma_ups_mono(ups, idx_1 + 1); lemma_ups_len(ups); }" % name)
+        w("    proof { reveal(%s_fields_ok); lemma_upto_mono_%s(*self); lemma_ups_take(ups, idx_1 as int); lemma_ups_mono(ups, idx_1 + 1); lemma_ups_len(ups); }" % (name, name))
         w("@before `sum_acc }`")
         w("  proof { assert(ups.take(ups.len() as int) =~= ups); lemma_ups_len(ups); }")
         for k, q in enumerate(props):
@@ -350,14 +358,14 @@ def gen():
         w("@attr #[verifier::spinoff_prover]")
         w("@entry")
         w("  let ghost ups = self.user_properties@;")
-        w("  proof { lemma_upto_mono_%s(*self); lemma_ups_len(ups); }" % name)
+        w("  proof { reveal(%s_fields_ok); lemma_upto_mono_%s(*self); lemma_ups_len(ups); }" % (name, name))
         w("@loop 1")
         w("  @invariant")
         w("    #frame: idx_1 <= ups.len() && ups == self.user_properties@ && %s_ok(*self) && len == 0" % name)
         w("    #acc: sum_acc == ups_sum4(ups.take(idx_1 as int))")
         w("  @decreases ups.len() - idx_1")
         w("  @top")
-        w("    proof { lemma_upto_mono_%s(*self); lemma_ups_take(ups, idx_1 as int); lemma_ups_mono(ups, idx_1 + 1); lemma_ups_len(ups); }" % name)
+        w("    proof { reveal(%s_fields_ok); lemma_upto_mono_%s(*self); lemma_ups_take(ups, idx_1 as int); lemma_ups_mono(ups, idx_1 + 1); lemma_ups_len(ups); }" % (name, name))
         w("@before `sum_acc }`")
         w("  proof { assert(ups.take(ups.len() as int) =~= ups); lemma_ups_len(ups); }")
         for k, q in enumerate(props):
